@@ -3,7 +3,7 @@
    shipped database, both regenerated from /repo on every run. *)
 From Coq Require Import String ZArith List Bool Lia.
 From SynRBL Require Import Base.Dict Base.Strs Base.ListX Model.Comp Model.Matcher Model.Constraint
-  Proofs.CompProofs Proofs.MatcherProofs Proofs.ConstraintProofs Gen.GenSymbols Gen.GenRules Gen.GenConst.
+  Proofs.CompProofs Proofs.MatcherProofs Proofs.MatcherTermination Proofs.ConstraintProofs Gen.GenSymbols Gen.GenRules Gen.GenConst.
 Import ListNotations.
 Open Scope string_scope. Open Scope Z_scope.
 
@@ -58,6 +58,17 @@ Theorem C08_multiplicities_positive : forall rules,
     exists ext, sol = (p ++ ext)%list /\ forall it, In it ext -> snd it >= 1.
 Proof. exact dfs_ratios_positive. Qed.
 
+(* the search terminates: with a well-formed database (db_wf above) every applied rule removes at least one atom, so more
+   fuel than the imbalance has atoms is always enough, and min() of an empty sequence cannot happen; the model's None
+   (Python: RecursionError / ValueError) is then impossible *)
+Theorem C08_solver_terminates : forall fuel db diff,
+  forallb record_wf db = true -> nodupk diff -> (forall k, k <> "Q" -> getd diff k >= 0) ->
+  atoms_of diff < Z.of_nat fuel ->
+  exists res, match_all fuel db diff = Some res.
+Proof. exact match_all_terminates_b. Qed.
+Example hcl_atoms : atoms_of [("H",1);("Cl",1)] = 2.
+Proof. vm_compute. reflexivity. Qed.
+
 (* appending the completion to the lighter side balances the reaction: with C07's
    classify_sound (r = p + d for Products, p = r + d for Reactants) and additivity *)
 Theorem C08_completion_balances : forall r p d sol,
@@ -89,3 +100,4 @@ Print Assumptions C08_completions_sum_exactly.
 Print Assumptions C08_multiplicities_positive.
 Print Assumptions C08_completion_balances.
 Print Assumptions C08_accepted_has_no_banned.
+Print Assumptions C08_solver_terminates.
